@@ -124,7 +124,7 @@ b = fn_body(gatekeeper, "has_subscription_expired")
 m = re.search(r"self\s*\.\s*last_known_block_height\s*\.\s*load\(Ordering::Acquire\)\s*(>=|<=|==|!=|<|>)\s*user_info\s*\.\s*subscription_expiry", b or "")
 expired = item("subscriptionExpired", f"height {m.group(1)} expiry" if m else None, "height >= expiry")
 
-b = fn_body(gatekeeper, "get_outdated_users")
+b = fn_body(gatekeeper, "outdated_among") or fn_body(gatekeeper, "get_outdated_users")
 m = re.search(r"\.filter\(\|\(_,\s*info\)\|\s*(.*?)\)\s*\.map", b or "", flags=re.S)
 outd = translate(m.group(1), {"block_height": "height", "info.subscription_expiry": "expiry", "self.expiry_delta": "delta"}) if m else None
 outd = item("userOutdated", outd, "height >= expiry + delta")
@@ -222,7 +222,7 @@ for n, v in codes.items():
     L.append(f"def {n} : Int := {v}")
 L.append("\n/-- teos/src/gatekeeper.rs `has_subscription_expired` -/")
 L.append(f"def subscriptionExpired (height expiry : Nat) : Bool := {lean_cmp(expired)}\n")
-L.append("/-- teos/src/gatekeeper.rs `get_outdated_users` -/")
+L.append("/-- teos/src/gatekeeper.rs `outdated_among` (the filter of `get_outdated_users` and of the block handler) -/")
 L.append(f"def userOutdated (height expiry delta : Nat) : Bool := {lean_cmp(outd)}\n")
 L.append("/-- teos/src/gatekeeper.rs `add_update_appointment` -/")
 L.append(f"def slotsFit (diff available : Int) : Bool := {lean_cmp(fit)}\n")
@@ -312,8 +312,9 @@ def blank_comments_and_literals(t):
 
 def non_test(path):
     t = blank_comments_and_literals(src(path))
-    k = t.find("#[cfg(test)]")
-    return t if k < 0 else t[:k]
+    # the test module (an item-level `#[cfg(test)]` on a single function does not end the file)
+    m = re.search(r"#\[cfg\(test\)\]\s*(?:pub\s+)?mod\s", t)
+    return t if not m else t[:m.start()]
 
 
 def functions(text):
